@@ -814,7 +814,10 @@ func (e *SpecEnv) callExpr(n *ast.CallExpr) (SV, types.Type) {
 				if x.T.Sort == SStr {
 					return Sc{c.strLen(x.T)}, types.Typ[types.Int]
 				}
-				if _, ok := t.Underlying().(*types.Map); ok {
+				if mt, ok := t.Underlying().(*types.Map); ok {
+					if c.vc.quant == 0 {
+						c.mapLenWitness(e.st, mt, x.T)
+					}
 					return Sc{c.mapLen(e.st, x.T)}, types.Typ[types.Int]
 				}
 				if _, ok := t.Underlying().(*types.Chan); ok {
